@@ -308,10 +308,7 @@ class BP(EvalObj):
     def degree(self) -> int:
         return self.value.bit_length() - 1
 
-    def __add__(self, o):
-        return BP(self.value ^ o.value)
-
-    __sub__ = __add__
+    # no + / - / //: the repository's class does not define them either (a changed program that used them would raise)
 
     def __mul__(self, o):
         return BP(pmul(self.value, o.value))
@@ -321,13 +318,10 @@ class BP(EvalObj):
             raise ZeroDivisionError("polynomial modulo zero")
         return BP(pmod(self.value, o.value))
 
-    def __floordiv__(self, o):
+    def div(self, o):
         if o.value == 0:
             raise ZeroDivisionError("polynomial division by zero")
         return BP(pdivmod(self.value, o.value)[0])
-
-    def div(self, o):
-        return self.__floordiv__(o)
 
     def __eq__(self, o):
         return isinstance(o, BP) and o.value == self.value
@@ -386,8 +380,6 @@ class FieldElem(EvalObj):
     def __add__(self, o):
         return FieldElem(self.field, self.value ^ o.value)
 
-    __sub__ = __add__
-
     def __pow__(self, e):
         if not isinstance(e, int) or isinstance(e, bool):
             raise TypeError("exponent")
@@ -401,9 +393,6 @@ class FieldElem(EvalObj):
         if self.value == 0:
             raise ZeroDivisionError("inverse of zero")
         return self ** (self.field.size - 2)
-
-    def __truediv__(self, o):
-        return self * o.inverse()
 
     def conjugates(self):
         # the orbit under squaring (reference implementation of the model, own arithmetic)
